@@ -197,6 +197,11 @@ func MuxerPayload(p *load.Program, r *report.Report) {
 						}
 					case ssa.CallInstruction:
 						if n := ssau.CalleeName(x.Common()); n != load.RootPath+".writePacket" {
+							// a helper of the package that only touches fields of the packet other than Payload and hands the
+							// packet to nobody else is as good as the same statements in WriteData
+							if cal := x.Common().StaticCallee(); cal != nil && packetHelperOK(p, cal, x.Common().Args, a, 0) {
+								continue
+							}
 							okv = false
 							why = append(why, "the local packet is passed to "+calleeDesc(n))
 						}
@@ -253,6 +258,40 @@ func MuxerPayload(p *load.Program, r *report.Report) {
 
 // rootParam follows field addresses and loads back to the parameter an address is rooted at; a
 // local packet whose pointer field was copied from the caller's data counts as rooted at that data.
+// packetHelperOK: callee (of the analysed package) receives the packet pkt as one of its arguments and uses that parameter
+// only to address fields other than Payload, or to pass it on to writePacket / another such helper.
+func packetHelperOK(p *load.Program, callee *ssa.Function, args []ssa.Value, pkt ssa.Value, depth int) bool {
+	if depth > 3 || callee.Pkg != p.SSAPkg || len(callee.Blocks) == 0 {
+		return false
+	}
+	for i, a := range args {
+		if a != pkt || i >= len(callee.Params) {
+			continue
+		}
+		prm := callee.Params[i]
+		for _, ref := range *prm.Referrers() {
+			switch x := ref.(type) {
+			case *ssa.DebugRef:
+			case *ssa.FieldAddr:
+				if n, _ := ssau.FieldName(x); n == "Payload" {
+					return false
+				}
+			case ssa.CallInstruction:
+				if n := ssau.CalleeName(x.Common()); n == load.RootPath+".writePacket" {
+					continue
+				}
+				cal := x.Common().StaticCallee()
+				if cal == nil || !packetHelperOK(p, cal, x.Common().Args, prm, depth+1) {
+					return false
+				}
+			default:
+				return false
+			}
+		}
+	}
+	return true
+}
+
 func rootParam(v ssa.Value) *ssa.Parameter {
 	seen := map[ssa.Value]bool{}
 	for v != nil && !seen[v] {
